@@ -76,3 +76,69 @@ def parse_rule(rule, text):
     if t is FAILURE:
         return {'res': 'fail'}
     return {'res': 'ok', 'stop': p._offset, 'tree': dump_tree(t)}
+
+
+# ------------------------------------------------------------------ conversion, canonical XML
+DEFAULT_URI = '/akn/za/act/2009/10'
+
+
+def localname(tag):
+    return tag.split('}', 1)[-1] if isinstance(tag, str) else str(tag)
+
+
+def canon(el, stub_meta=True):
+    """Canonical JSON-able form of an element: [tag, {attr: value}, [children]], children being
+    strings (text, adjacent pieces merged) or elements. `meta` blocks are replaced by a stub that
+    keeps what bluebell itself controls: the work FRBRthis value and the title alias."""
+    tag = localname(el.tag)
+    if stub_meta and tag == 'meta':
+        ns = el.nsmap.get(None)
+        q = lambda p: el.find(p.replace('a:', '{%s}' % ns)) if ns else el.find(p.replace('a:', ''))
+        this = q('a:identification/a:FRBRWork/a:FRBRthis')
+        alias = q('a:identification/a:FRBRWork/a:FRBRalias')
+        ethis = q('a:identification/a:FRBRExpression/a:FRBRthis')
+        mthis = q('a:identification/a:FRBRManifestation/a:FRBRthis')
+        return ['meta', {'this': this.get('value') if this is not None else '',
+                         'alias': alias.get('value') if alias is not None else '',
+                         'expr': ethis.get('value') if ethis is not None else '',
+                         'manif': mthis.get('value') if mthis is not None else ''}, []]
+    kids = []
+
+    def add_text(t):
+        if t:
+            if kids and isinstance(kids[-1], str):
+                kids[-1] += t
+            else:
+                kids.append(t)
+    add_text(el.text)
+    for k in el:
+        if isinstance(k.tag, str):
+            kids.append(canon(k, stub_meta))
+        add_text(k.tail)
+    return [tag, {localname(a): v for a, v in sorted(el.attrib.items())}, kids]
+
+
+def make_parser(uri=DEFAULT_URI, prefix=''):
+    from bluebell.parser import AkomaNtosoParser
+    from cobalt import FrbrUri
+    return AkomaNtosoParser(FrbrUri.parse(uri) if uri else None, prefix)
+
+
+def classify_exc(ex):
+    return {'exc': type(ex).__name__, 'msg': str(ex)[:300]}
+
+
+def convert(text, root, prefix='', uri=DEFAULT_URI, parser=None):
+    """Real parse_to_xml: {'xml': canonical} or {'exc': class, 'msg': ...}."""
+    p = parser or make_parser(uri, prefix)
+    try:
+        x = p.parse_to_xml(text, root)
+    except RecursionError:
+        return {'exc': 'RecursionError', 'msg': ''}
+    except Exception as ex:  # noqa
+        return classify_exc(ex)
+    return {'xml': canon(x), 'etree': x}
+
+
+def strip_etree(r):
+    return {k: v for k, v in r.items() if k != 'etree'}
